@@ -336,6 +336,7 @@ func remoteFeeds(c *ev.Ctx, caseNo *int) {
 		o.MaxOutbox, o.MaxReplies, o.MaxAncestors = 12, 3, 1
 		g := world.Generate(r, []string{s.Host(2 + r.Intn(3)), s.Host(5 + r.Intn(3))}, o)
 		s.SetHandler(wk.Handler(g.World))
+		s.ResetLog() // the byte log is only needed per world; keeping it would grow without bound
 		var inputs []string
 		var sources [][]*world.V
 		for k, m := 0, r.Intn(5); k < m; k++ {
